@@ -320,7 +320,11 @@ func c12Enumerate(tier string) []any {
 			data := c12DataMutations(quick, r)
 			side := c12SidecarMutations(quick)
 			var ops []c12Op
-			for slot := 0; slot < 10; slot++ {
+			slots := 6 // the quick store has 3 snapshot directories: 3 data files + 3 sidecars
+			if !quick {
+				slots = 10
+			}
+			for slot := 0; slot < slots; slot++ {
 				// even slots are data files, odd slots their sidecars (canonical order: x, x.crc32)
 				muts := data
 				if slot%2 == 1 {
